@@ -234,3 +234,37 @@ Proof.
   exists f_par, [OpRun true], nobeh, [[0%nat]], f_sched, y. repeat split; auto. lia.
 Qed.
 Print Assumptions C09_fork_shared_channel_refuted.
+
+(* ---------------------------------------------------------------------------------- *)
+(* uv_stop(): every theorem above already quantifies over loop scripts containing      *)
+(* uv_stop() between runs (OpStop) and callbacks that call uv_stop() (CbStop), followed *)
+(* by uv_run in any mode: uv__async_io never looks at stop_flag, the pass examines      *)
+(* every handle of the list snapshot.  Sanity: the variant that leaves the pass after   *)
+(* a callback called uv_stop() (the eventfd being drained already) loses the wake-up   *)
+(* of a later handle for good.                                                          *)
+(* ---------------------------------------------------------------------------------- *)
+Theorem C09_stop_break_refuted :
+  exists n e0 lscript beh scripts sched s,
+    0 <= e0 /\ run_stopbreak (init n e0 lscript beh scripts) sched = Some s /\
+    quiescent s = true /\ hst (hs s 1%nat) = Open /\ pending (hs s 1%nat) = true /\
+    seen (hs s 1%nat) < published (hs s 1%nat).
+Proof.
+  destruct stop_break_loses_wakeup as (s & Hr & Hq & Ho & Hp & Hs & Hpub).
+  exists 2%nat, 0, [OpRun true; OpRun true], sb_beh, [[0%nat]; [1%nat]], sb_sched, s.
+  repeat split; auto; lia.
+Qed.
+Print Assumptions C09_stop_break_refuted.
+
+(* The code as it is, same scenario: both callbacks have run when uv_run returns because of
+   uv_stop(), and the stop flag is cleared. *)
+Example C09_stop_examines_all_handles :
+  exists n e0 lscript beh scripts sched s,
+    0 <= e0 /\ run (init n e0 lscript beh scripts) sched = Some s /\
+    l_pc (lp s) = LTop /\ l_stop (lp s) = false /\
+    cb_count (hs s 0%nat) = 1 /\ cb_count (hs s 1%nat) = 1.
+Proof.
+  destruct stop_examines_all_handles as (s & Hr & Hpc & Hst & H0 & H1 & _).
+  exists 2%nat, 0, [OpRun true; OpRun true], sb_beh, [[0%nat]; [1%nat]], (sb_sched ++ [0; 0]%nat), s.
+  repeat split; auto; lia.
+Qed.
+Print Assumptions C09_stop_examines_all_handles.
